@@ -130,13 +130,37 @@ pub fn build() -> Vec<TypeOps> {
 	t!(v, "derived", "zst-wire"; TOnlyFirst, Box<TOnlyFirst>, [TOnlyFirst; 2], Arc<TOnlyFirst>, TOnlyLast, Box<TOnlyLast>, [TOnlyLast; 3], Rc<TOnlyLast>, Vec<TOnlyLast>);
 	t!(v, "custom-fixed"; Vec<BeU32>, [BeU32; 3], Box<[BeU32; 2]>, VecDeque<BeU32>, (BeU32, u8), Vec<[BeU32; 2]>);
 
+	// --- element sizes that do not divide the 16 KiB preallocation window; big elements (few per chunk)
+	t!(v, "odd-elem"; Vec<[u8; 3]>, Vec<(u8, u8, u8)>, VecDeque<[u8; 3]>, Vec<[u16; 3]>, Vec<(u8, u32)>, Vec<[u8; 5]>, BinaryHeap<[u8; 3]>, Cow<'static, [[u8; 3]]>);
+	t!(v, "big-elem"; Vec<[u8; 1000]>, Vec<[u64; 300]>, VecDeque<[u8; 1000]>, Vec<([u8; 1000], Vec<u8>)>);
+	t!(v, "heap"; BinaryHeap<Vec<Box<u32>>>, Vec<BinaryHeap<Box<u16>>>, BinaryHeap<Option<u8>>, BinaryHeap<Box<u8>>);
+
 	// --- types that newly gaining a length declaration would be wrong for (probed at compile time)
 	t!(v; Box<Option<u8>>, Range<Compact<u64>>, RangeInclusive<Option<u16>>, [Option<bool>; 2], (Compact<u16>, u8), Box<Compact<u32>>, Arc<Option<u32>>);
 
 	// --- deep nesting
 	t!(v; Result<Vec<Box<(u8, String)>>, Option<Vec<u8>>>, BTreeMap<String, BTreeMap<u8, Vec<Option<Box<String>>>>>, Vec<(Compact<u32>, Option<(bool, Vec<i32>)>)>, Option<Result<Vec<Vec<u16>>, BTreeSet<u8>>>);
 
+	fn has_heap(t: &monitor::model::Ty, d: u32) -> bool {
+		use monitor::model::{SeqKind, Ty};
+		if d > 10 {
+			return false;
+		}
+		match t {
+			Ty::Seq { kind: SeqKind::Heap, .. } => true,
+			Ty::Seq { elem, .. } | Ty::Option(elem) | Ty::Array(elem, _) | Ty::Ptr(elem, _) => has_heap(elem, d + 1),
+			Ty::Map(k, x) | Ty::Result(k, x) => has_heap(k, d + 1) || has_heap(x, d + 1),
+			Ty::Tuple(ts) => ts.iter().any(|t| has_heap(t, d + 1)),
+			Ty::Struct { fields, .. } => fields.iter().any(|f| has_heap(&f.ty, d + 1)),
+			Ty::Enum { variants, .. } => variants.iter().any(|v| v.fields.iter().any(|f| has_heap(&f.ty, d + 1))),
+			_ => false,
+		}
+	}
 	for o in v.iter_mut() {
+		// heaps have no specified element order: such types are compared as multisets
+		if has_heap(&o.ty, 0) && !o.has_tag("heap") {
+			o.tags.push("heap");
+		}
 		if o.ty.has_zero_len_elem_seq() && !o.has_tag("zst-elem") {
 			o.tags.push("zst-elem");
 		}
